@@ -70,8 +70,16 @@ TypeAtoms == { Ty(n, n, "none") : n \in {"int", "float", "str", "bool", "bytes",
                Ty("int|str", "union", "union"), Ty("int|None", "union", "union"), Ty("Union[float,str]", "union", "typing") }
 FuncNames == {"f_add1", "f_add2", "f_mul2", "f_neg", "f_kwd", "f_two"}
 ObjClasses == {"P1", "P2", "Q1", "Q2", "S1", "S2"}
+(* callables without Python-level state (pool in harness/identity_common.py: CFUNCS) and partial objects *)
+CFuncs == { [k |-> "cfunc", cls |-> c, v |-> n] :
+              <<c, n>> \in { <<"builtin", "math.sin">>, <<"builtin", "math.cos">>, <<"builtin", "len">>, <<"builtin", "abs">>,
+                             <<"ufunc", "np.add">>, <<"ufunc", "np.multiply">>,
+                             <<"method_descriptor", "str.upper">>, <<"method_descriptor", "str.lower">>,
+                             <<"itemgetter", "itemgetter(0)">>, <<"itemgetter", "itemgetter(1)">> } }
+Partials == { [k |-> "partial", fn |-> [k |-> "func", v |-> f, cells |-> <<>>], v |-> <<x>>] :
+                f \in {"f_kwd", "f_two"}, x \in Atoms(2) }
 ExtAtoms ==
-     TypeAtoms
+     TypeAtoms \cup CFuncs \cup Partials
   \cup { [k |-> "func", v |-> n, cells |-> <<>>] : n \in FuncNames }
   \cup { [k |-> "obj", cls |-> c, v |-> << <<"a", x>>, <<"b", y>> >>] : c \in ObjClasses, x \in Atoms(3), y \in Atoms(2) }
   \cup { [k |-> "path", cls |-> c, v |-> p] : c \in {"PosixPath", "PurePosixPath"}, p \in {"/a/b", "/a", "a/b"} }
